@@ -140,10 +140,12 @@ class C16(Property):
             'file / line number / function / optional source line / optional position-marker line, a type name and '
             'an empty, one-line or multi-line message, with or without the final newline, handed over as str or as '
             'UTF-8 bytes; (r) a mutated or malformed text; (l) a generated program whose nested calls (plain, lambda, '
-            'method, generator, coroutine, exec, eval, recursion, decorator, property, no-source code, and functions '
+            'method, generator, coroutine, exec, eval, recursion - plain, through a def and a lambda on one line, from two '
+            'lines in turn; run lengths around the interpreter\'s cut-off of 3 -, decorator, property, no-source code, and functions '
             'that catch the exception and hand the same object on: raise e / bare raise / with_traceback / a trimmed '
             'or rebuilt traceback / after the handler / nested handlers / a retry loop / generator.throw / finally) '
-            'raise an exception that is formatted by boltons (ExceptionInfo from_exc_info and from_current, '
+            'raise an exception (builtin, module-level, nested in a class or a function, with its own __str__, with a '
+            '__str__ that raises, with a reassigned __module__) that is formatted by boltons (ExceptionInfo from_exc_info and from_current, '
             'TracebackInfo with and without limit, ContextualExceptionInfo, print_exception with and without limit; '
             'objects built, formatted and to_dict()ed in three different orders) and by the traceback module, boltons '
             'first or second. The modules of the program have their source in a hand-registered linecache entry '
